@@ -9,6 +9,7 @@
 #
 import decimal
 import math
+import re
 import urllib.parse
 from collections.abc import Iterator, Callable
 from copy import copy
@@ -47,6 +48,10 @@ _LEAF_ELEMENTS_TOKENS = frozenset((
 ))
 
 T = TypeVar('T', bound=ta.ItemType)
+
+
+# XPath 1.0 number(): optional white space, optional minus sign, Number, white space
+XPATH1_NUMBER_PATTERN = re.compile(r'[ \t\n\r]*-?(?:[0-9]+(?:\.[0-9]*)?|\.[0-9]+)[ \t\n\r]*\Z')
 
 
 class XPathToken(Token[ta.XPathTokenType]):
@@ -946,9 +951,13 @@ class XPathToken(Token[ta.XPathTokenType]):
         The numeric value, as computed by fn:number() on each item. Returns a float value.
         """
         try:
-            if isinstance(obj, XPathNode):
-                if self.parser.version == '1.0':
-                    return get_double(obj.compat_string_value, self.parser.xsd_version)
+            if self.parser.version == '1.0':
+                if isinstance(obj, XPathNode):
+                    obj = obj.compat_string_value
+                if isinstance(obj, str) and XPATH1_NUMBER_PATTERN.match(obj) is None:
+                    return math.nan  # XPath 1.0 number(): no exponent, no '+', no INF
+                return get_double(obj, self.parser.xsd_version)
+            elif isinstance(obj, XPathNode):
                 return get_double(obj.string_value, self.parser.xsd_version)
             else:
                 return get_double(obj, self.parser.xsd_version)
